@@ -127,9 +127,20 @@ fn stderr_hint(path: &std::path::Path) -> &'static str {
 }
 
 impl WorkerProc {
-    fn kill(mut self) {
-        let _ = self.child.kill();
-        let _ = self.child.wait();
+    fn kill(self) {
+        let WorkerProc { mut child, stdin, .. } = self;
+        if std::env::var_os("VH_GRACEFUL_WORKERS").is_some() {
+            // coverage measurement (bin/coverage): let an idle worker leave through exit(0) so that its counters are written
+            drop(stdin);
+            for _ in 0..200 {
+                if let Ok(Some(_)) = child.try_wait() {
+                    return;
+                }
+                std::thread::sleep(Duration::from_millis(10));
+            }
+        }
+        let _ = child.kill();
+        let _ = child.wait();
     }
 
     /// Collect the exit status of a worker whose pipe closed.
@@ -672,7 +683,7 @@ fn run(sh: &Shared, families: &Families) {
     let targets = sh.targets;
     let quick = ctx.quick();
     let random_per_target: usize = ctx.pick(10_000, 100_000);
-    let deadline = Instant::now() + Duration::from_secs(ctx.pick(55, 8 * 60 + 30));
+    let deadline = Instant::now() + Duration::from_secs_f64(ctx.pick(55.0, 510.0) * Ctx::wall_scale());
     let pool: Vec<&Seed> = families.values().flat_map(|v| v.iter()).filter(|s| s.data.len() <= 70_000).collect();
 
     let empty: Vec<Seed> = Vec::new();
